@@ -184,6 +184,10 @@ def _generated(rng, tier, focus, allow_degenerate=True):
     if rng.random() < 0.3:
         start["velocities"] = [gen.rvec(rng, 1.0) for _ in range(n_start)]
     n_mob = min(n_start, n_end) if n_start != n_end else n_end
+    if focus == "C06" and n_mob >= 3 and rng.random() < 0.12:
+        # a connected mobile molecule WITH rings: no bond oracle, but with single-atom moves disabled every distance stays
+        mob = end if start_fixed else start
+        mob["edges"] = [list(e) for e in gen.add_cycles(rng, n_mob, [tuple(e) for e in mob["edges"]], rng.randint(1, 2))]
     # restraints
     r = rng.random()
     if r < 0.4:
@@ -227,6 +231,10 @@ def _generated(rng, tier, focus, allow_degenerate=True):
           "auto_guess": auto_guess, "ignore_h": rng.random() < 0.6, "steps_factor": steps_factor,
           "sigma_scale": rng.choice([0.5, 0.5, rng.uniform(0.05, 2.0)]),
           "np_seed": rng.randrange(2 ** 32), "script": gen_script(rng)}
+    # how the molecules reach the Alignment and in what form the options are written
+    tr["lifecycle"] = rng.choice(["ctor", "ctor", "ctor", "assign", "none_then_assign", "assign_reversed"])
+    tr["forms"] = {"deform": rng.choice(["tuple", "tuple", "list"]), "restr": rng.choice(["tuples", "tuples", "lists"]),
+                   "omit_empty": rng.random() < 0.3}
     if focus == "C06" and min(n_start, n_end) >= 2 and rng.random() < 0.2:
         # the SAME Alignment object is used again: after the first alignment the mobile molecule is re-assigned with another
         # conformation of the same species (other bond lengths) and aligned once more
@@ -462,6 +470,10 @@ class Watch:
         self.fixed = None
         self.restr = None
         self.sig = []
+        self.unit = 1.0              # length unit of the run (coordinates ~unit): floors of the tolerances
+        self.orphan_chi2 = 0         # evaluations inside the loop phase that no recognised iteration accounts for
+        self.overdue = False         # a move type was drawn although the budget was already used up
+        self.in_accept = False
 
     # ---- random seam listener --------------------------------------------------------
     def on_draw(self, site, fname, args, value):
@@ -469,6 +481,14 @@ class Watch:
             self.on_choice(value, args[0] if args else None)
         elif site == "accept_metropolis" and fname == "rand":
             self.accept_u = float(value)
+        elif self.in_accept and self.accept_u is None and fname in ("random", "random_sample", "uniform", "rand", "ranf", "sample"):
+            # the acceptance draw through another spelling of "uniform in [0, 1)"
+            try:
+                v = float(value)
+                if 0.0 <= v < 1.0:
+                    self.accept_u = v
+            except Exception:
+                pass
         elif site == "move_mol_atom" and fname == "randint":
             self.last_randint = int(value)
 
@@ -480,9 +500,8 @@ class Watch:
             # the previous iteration never reached the acceptance test through the seam we watch
             self.unobservable = True
         if not self.unobservable and self.counter >= self.n_steps:
-            ctx.violate("C09", "does-not-stop", f"the search drew another move after {self.counter} consecutive steps "
-                                                f"without a new lowest measure (budget {self.n_steps})")
-            raise ExtraDraw()
+            # drawing is not yet a step: the violation is a PROPOSAL evaluated beyond the budget (see on_chi2)
+            self.overdue = True
         if self.iterations > 400000:
             ctx.violate("C09", "does-not-stop", f"the search is still running after {self.iterations} iterations "
                                                 f"(budget {self.n_steps} consecutive steps without improvement)")
@@ -510,8 +529,14 @@ class Watch:
             self.counter = 0
             self.phase = "loop"
             return
+        if self.phase == "loop" and self.cur is None:
+            self.orphan_chi2 += 1
         if self.phase != "loop" or self.cur is None:
             return
+        if self.overdue and not self.unobservable:
+            ctx.violate("C09", "does-not-stop", f"the search evaluated another proposal after {self.counter} consecutive steps "
+                                                f"without a new lowest measure (budget {self.n_steps})")
+            raise ExtraDraw()
         cur = self.cur
         cur["proposal"] = config
         cur["E_new"] = value
@@ -522,7 +547,7 @@ class Watch:
         if config.shape != held.shape:
             ctx.violate("C09", "proposal-shape", f"proposal has shape {config.shape}, held configuration {held.shape}")
             return
-        scale = max(1.0, float(np.max(np.abs(held))), float(np.max(np.abs(config))))
+        scale = max(self.unit, float(np.max(np.abs(held))), float(np.max(np.abs(config))))
         t = cur["type"]
         if t == 0:
             diff = config - held
@@ -676,18 +701,24 @@ def make_monitors(ctx, watch, real):
 
     def mon_accept(energy_0, energy_1, *a, **kw):
         watch.accept_u = None
-        res = real_accept(energy_0, energy_1, *a, **kw)
+        watch.in_accept = True
+        try:
+            res = real_accept(energy_0, energy_1, *a, **kw)
+        finally:
+            watch.in_accept = False
         watch.on_accept(energy_0, energy_1, res, watch.accept_u)
         return res
 
     def mon_displ(atoms_pos, bonds_info, atom_index, *a, **kw):
         before = np.array(atoms_pos, dtype=float, copy=True)
+        tsnap = table_snapshot(bonds_info)
         out = real_displ(atoms_pos, bonds_info, atom_index, *a, **kw)
+        table_unchanged(ctx, bonds_info, tsnap, "find_atom_random_displ")
         if watch.degenerate and not np.all(np.isfinite(np.asarray(out, dtype=float))):
             ctx.probe("non_finite_displacement")
             watch.last_displ = np.array(out, dtype=float, copy=True)
             return out
-        check_displacement(ctx, before, bonds_info, atom_index, out)
+        check_displacement(ctx, before, tsnap, atom_index, out)
         if not np.array_equal(before, np.asarray(atoms_pos)):
             ctx.violate("C07", "displ-modifies-input", "find_atom_random_displ modified the coordinate array")
         watch.last_displ = np.array(out, dtype=float, copy=True)
@@ -697,13 +728,15 @@ def make_monitors(ctx, watch, real):
         before = np.array(atoms_pos, dtype=float, copy=True)
         watch.last_randint = None
         watch.last_displ = None
+        tsnap = table_snapshot(bonds_info)
         out = real_move(atoms_pos, bonds_info, atom_index, displ, sigma_scale, *extra, **kw)
+        table_unchanged(ctx, bonds_info, tsnap, "move_mol_atom")
         idx = atom_index if atom_index is not None else watch.last_randint
         d = displ if displ is not None else watch.last_displ
         if watch.degenerate and not np.all(np.isfinite(np.asarray(out, dtype=float))):
             ctx.probe("non_finite_move")
         else:
-            check_move(ctx, before, np.asarray(atoms_pos), bonds_info, idx, d, out, tree=watch.tree_mobile)
+            check_move(ctx, before, np.asarray(atoms_pos), tsnap, idx, d, out, tree=watch.tree_mobile)
         if watch.cur is not None:
             watch.cur["move"] = (before, np.array(out, dtype=float, copy=True))
         return out
@@ -722,6 +755,20 @@ def make_monitors(ctx, watch, real):
         return M
 
     return MonChi2, mon_accept, mon_move, mon_displ, mon_rot
+
+
+def table_snapshot(table):
+    return {k: [tuple(x) for x in v] for k, v in table.items()}
+
+
+def table_unchanged(ctx, table, snap_, what):
+    try:
+        same = list(table) == list(snap_) and all([tuple(x) for x in table[k]] == snap_[k] for k in snap_)
+    except Exception:
+        same = False
+    if not same:
+        ctx.violate("C07", "move-modifies-table", f"{what} changed the bond table it was given (entries, lengths or order)")
+    return same
 
 
 def check_rotation(ctx, axis, theta, M, tol=1e-12):
@@ -909,11 +956,37 @@ def execute(trace, ctx):
 
     def run(monitored):
         """One complete execution; returns (alignment, watch, outcome)."""
-        ali = Alignment(user_start, user_end)
+        life = trace.get("lifecycle", "ctor")
+        if life == "assign":
+            ali = Alignment()
+            ali.start = user_start
+            ali.end = user_end
+        elif life == "assign_reversed":
+            ali = Alignment()
+            ali.end = user_end
+            ali.start = user_start
+        elif life == "none_then_assign":
+            # both set, then cleared, then set again (the documented way to start over)
+            ali = Alignment(user_start, user_end)
+            ali.start = None
+            ali.end = None
+            ali.end = user_end
+            ali.start = user_start
+        else:
+            ali = Alignment(user_start, user_end)
         for key, m in later.items():
             setattr(ali, key, m)
         ini_s, ini_e = mol_snapshot(ali.start), mol_snapshot(ali.end)
+        if monitored:
+            # what the alignment holds before it starts IS what the caller supplied (the statement's "initial value")
+            for name, held_snap, given in (("start", ini_s, later.get("start", user_start)), ("end", ini_e, later.get("end", user_end))):
+                gs = mol_snapshot(given)
+                if not np.array_equal(held_snap[0], gs[0]) or held_snap[4] != gs[4] or held_snap[5] != gs[5]:
+                    ctx.violate("C06", "stored-molecule-differs", f"before any alignment the {name} molecule held by the Alignment "
+                                                                  f"differs from the one supplied (coordinates, atom names or "
+                                                                  f"residue names)", key=name)
         watch = Watch(ctx, tree_mobile, degenerate=bool(trace.get("degenerate")))
+        watch.unit = float(trace.get("unit_scale") or 1.0) if float(trace.get("unit_scale") or 1.0) < 1.0 else 1.0
         script = Script(trace["script"], ctx if monitored else _NullCtx(), n_mob, hubs)
         seam = RandomSeam(ctx, trace["np_seed"], listener=watch.on_draw if monitored else None, log=monitored)
         seam.overrider = script
@@ -926,6 +999,23 @@ def execute(trace, ctx):
             watch.n_steps = int(n_steps)
             watch.sim_type = tuple(sim_type)
             watch.phase = "init"
+            if monitored and trace["mode"] == "align":
+                # "restricted to the enabled deformation types": the types the CALLER enabled
+                if deform is not None:
+                    want_types = set(int(x) for x in deform)
+                else:
+                    want_types = {0} if (ns == 1 or ne == 1) else {0, 1, 2}
+                try:
+                    got_types = set(int(x) for x in sim_type)
+                except Exception:
+                    got_types = None
+                if got_types != want_types:
+                    ctx.violate("C09", "enabled-types-not-forwarded", f"the caller enabled deformation types {sorted(want_types)}; "
+                                                                      f"the search was started with {sim_type!r}")
+                mob_now = np.array((ali.end if start_fixed else ali.start).atoms_positions, dtype=float)
+                if mob_now.shape != np.shape(mol2_positions) or not np.array_equal(mob_now, np.asarray(mol2_positions, dtype=float)):
+                    ctx.violate("C09", "search-not-started-from-mobile", "the search was not started from the configuration of the "
+                                                                         "molecule that moves")
             info["args"] = (np.array(mol1_positions, copy=True), np.array(mol2_positions, copy=True), int(n_steps),
                             list(restriction), tuple(sim_type), float(displacement_module), float(sigma_scale))
             out = real_min(mol1_positions, mol2_positions, mol2_com, sigma_scale, n_steps, restriction, mol2_bonds_info,
@@ -1054,11 +1144,17 @@ def _drive(trace, ali, restr, deform, ctx, B, info, watch):
     import gaddlemaps._alignment as A
     try:
         if trace["mode"] == "align":
+            forms = trace.get("forms") or {}
+            d_arg = deform if deform is None or forms.get("deform") != "list" else list(deform)
             if restr is None:
-                ali.align_molecules(restrictions=None, deformation_types=deform, ignore_hydrogens=trace["ignore_h"],
+                ali.align_molecules(restrictions=None, deformation_types=d_arg, ignore_hydrogens=trace["ignore_h"],
                                     auto_guess_protein_restrictions=bool(trace.get("auto_guess", True)))
+            elif not restr and forms.get("omit_empty") and len(ali.start.resnames) == 1:
+                # no restraints: the argument left at its default (single-residue molecules: nothing is guessed)
+                ali.align_molecules(deformation_types=d_arg, ignore_hydrogens=trace["ignore_h"])
             else:
-                ali.align_molecules(restrictions=list(restr), deformation_types=deform, ignore_hydrogens=trace["ignore_h"])
+                r_arg = [list(x) for x in restr] if forms.get("restr") == "lists" else list(restr)
+                ali.align_molecules(restrictions=r_arg, deformation_types=d_arg, ignore_hydrogens=trace["ignore_h"])
         else:
             # direct drive of the optimiser entry point with the inputs the alignment would build
             ns, ne = len(ali.start), len(ali.end)
@@ -1097,7 +1193,7 @@ def check_c06(trace, ctx, ali, ini_s, ini_e, start_fixed, tree_mobile, deform, m
                 float(np.max(np.abs(mob_fin[0]))))
     if start_fixed:
         diff = fixed_fin[0] - fixed_ini[0]
-        if float(np.max(np.abs(diff - diff[0]))) > 1e-9 * scale:
+        if float(np.max(np.abs(diff - diff[0]))) > 1e-9 * max(1.0, scale / 1000.0):
             ctx.violate(P, "fixed-molecule-deformed", "the molecule with more atoms (start) was not merely translated")
     else:
         if not np.array_equal(fixed_fin[0], fixed_ini[0]):
@@ -1116,7 +1212,7 @@ def check_c06(trace, ctx, ali, ini_s, ini_e, start_fixed, tree_mobile, deform, m
     if not single_atom_moves and len(mob_ini[0]) > 1:
         D0 = np.linalg.norm(mob_ini[0][:, None] - mob_ini[0][None, :], axis=-1)
         D1 = np.linalg.norm(mob_fin[0][:, None] - mob_fin[0][None, :], axis=-1)
-        if float(np.max(np.abs(D0 - D1))) > 1e-9 * scale:
+        if float(np.max(np.abs(D0 - D1))) > 1e-9 * max(1.0, scale / 1000.0):
             ctx.violate(P, "rigid-only-deformed", "single-atom moves are disabled but interatomic distances of the mobile "
                                                   "molecule changed")
         ctx.probe("rigid_only_run")
@@ -1132,6 +1228,11 @@ def check_c09_end(trace, ctx, watch, info):
     if watch.phase == "init":
         ctx.probe("loop_unobservable")
         return
+    if watch.iterations == 0 and watch.orphan_chi2 > 0:
+        # proposals were evaluated, but no iteration was recognised through the names this monitor watches (the loop was
+        # renamed or restructured): not judged, and counted
+        ctx.probe("loop_unobservable")
+        return
     ret = info.get("returned")
     if ret is None:
         return
@@ -1144,6 +1245,4 @@ def check_c09_end(trace, ctx, watch, info):
     want = ["%10.9f" % v for v in watch.expected_prints]
     got = [p.strip() for p in printed]
     if [w.strip() for w in want] != got:
-        ctx.violate("C09", "new-minimum-report", f"{len(got)} new-minimum lines were printed, the model recorded "
-                                                 f"{len(want)} new minima (first differing: "
-                                                 f"{next(((a, b) for a, b in zip(got, [w.strip() for w in want]) if a != b), None)})")
+        ctx.probe("new_minimum_report_differs")        # (what the search prints is not part of the statement: counted only)
